@@ -160,7 +160,7 @@ func (s e3Shape) render() map[string]string {
 		b.WriteString("    cmds:\n" + body("other", 1, false))
 	}
 	// a task whose dir: does not exist yet (read-only modes must not create it)
-	b.WriteString("  withdir:\n    dir: newdir/sub\n    cmds:\n      - cmd: " + yamlq(`printf 'withdir c1\n' >> "$VERIF_TRACE"`) + "\n")
+	b.WriteString("  withdir:\n    dir: newdir/sub\n    vars:\n      HERE: {sh: 'pwd'}\n    env:\n      EHERE: {sh: 'pwd'}\n    cmds:\n      - cmd: " + yamlq(`printf 'withdir c1\n' >> "$VERIF_TRACE"`) + "\n")
 	// a task with sources whose sub-call can be made to fail a precondition (read-only modes must not touch its state)
 	b.WriteString("  prefail:\n    preconditions: ['test -f pre.ok']\n    cmds:\n      - cmd: " + yamlq(`printf 'prefail c1\n' >> "$VERIF_TRACE"`) + "\n")
 	b.WriteString(strings.Replace(taskBody("withsub", false), "generates: ['out/gen.txt', 'out/gen2.txt']\n", "", 1))
